@@ -196,9 +196,9 @@ def linetab_ob(tname, opc, fmt, tier):
     step = 2 if word else 1
     items = [nop, 0] * ninst if word else [nop] * ninst
     FL = [1, 300]
-    INC = [0, step, 2 * step]
+    INC = [0, 2 * step]
     DL = [0, 1, 127, 128, 129, 255] if word else [0, 1, 128, 255]    # (the 2.7 source model costs more per path)
-    params = [("f", (0, 1)), ("a0", (0, 2)), ("l0", (0, len(DL) - 1)), ("a1", (0, 2)), ("l1", (0, len(DL) - 1))]
+    params = [("f", (0, 1)), ("a0", (0, 1)), ("l0", (0, len(DL) - 1)), ("a1", (0, 1)), ("l1", (0, len(DL) - 1))]
 
     def table(kw):
         i0, i1 = INC[kw["a0"]], INC[kw["a1"]]
@@ -283,6 +283,117 @@ def linetab_ob(tname, opc, fmt, tier):
               bound="table bytes: symbolic choice among the listed boundary values", timeout=120 if tier == "quick" else 300,
               setup=install_iter_unpack_model if vt == (3, 10) else None,
               oracle="line starts from CPython's own dis source / lines310 model, not from xdis")
+
+
+def marks_ob(tname, opc, fmt, tier):
+    """a loop-shaped code object built instruction by instruction: the listing must show exactly these offsets, names and
+    operands, and '>>' exactly at the jump targets CPython's own findlabels reports (arithmetic before 3.6) - nothing here is
+    taken from xdis's instruction stream"""
+    vt = tuple(opc.version_tuple[:2])
+    word = vt >= (3, 6)
+    om = opc.opmap
+    nop = "NOP" if "NOP" in om else "POP_TOP"
+    XS = [0, 1, 2, 3]
+    params = [("x", (0, 3))]
+    use_src = has_interp(opc) and vt >= (3, 6)
+
+    def build(x):
+        items, want = [], []
+
+        def emit(name, arg):
+            op = om[name]
+            has_arg = op >= opc.HAVE_ARGUMENT
+            want.append((len(items), name, arg if (has_arg or (word and vt >= (3, 13) and False)) else None))
+            items.extend([op, arg] if word else ([op, arg, 0] if has_arg else [op]))
+            for _ in range(cache_entries(opc, op)):
+                items.extend([om["CACHE"], 0])
+        emit("JUMP_FORWARD", x)
+        for _ in range(4):
+            emit(nop, 0)
+        emit("FOR_ITER", 2)
+        emit(nop, 0)
+        for nm in ("POP_JUMP_IF_TRUE", "POP_JUMP_FORWARD_IF_TRUE", "JUMP_IF_TRUE"):
+            if nm in om:
+                emit(nm, 1)
+                break
+        emit(nop, 0)
+        if "JUMP_BACKWARD" in om:
+            emit("JUMP_BACKWARD", 3)
+        else:
+            emit("JUMP_ABSOLUTE", 2)
+        emit("RETURN_VALUE", 0)
+        return items, want
+
+    def labels_of(items, want):
+        if use_src:
+            return sorted(set(oracles.load_dis(vt).findlabels(bytes(items))))
+        out = set()
+        for off, name, arg in want:
+            op = om[name]
+            if op in opc.hasjrel:
+                out.add(off + 3 + arg)
+            elif op in opc.hasjabs:
+                out.add(arg)
+        return sorted(out)
+
+    def run(x):
+        import xdis.bytecode as B
+        items, want = build(XS[x])
+        code = make_code(opc, items, False, 1)
+        saved = sys.stdout, sys.stderr
+        sys.stdout, sys.stderr = io.StringIO(), io.StringIO()
+        try:
+            text = B.Bytecode(code, opc).dis(asm_format=fmt)
+        finally:
+            sys.stdout, sys.stderr = saved
+        return text, items, want
+
+    def judge(r):
+        text, items, want = r
+        labels = labels_of(items, want)
+        got = []
+        for ln in text.split("\n"):
+            if not ln.strip() or ln.startswith("#"):
+                continue
+            m = LINE_RE.match(ln)
+            if m is None:
+                return "unparsable listing line %r" % (ln,)
+            if m.group(6) == "CACHE":
+                continue
+            got.append(m)
+        if len(got) != len(want):
+            return "listing has %d instruction lines, the code has %d instructions" % (len(got), len(want))
+        for m, (off, name, arg) in zip(got, want):
+            if int(m.group(4)) != off or m.group(6) != name:
+                return "listing shows %s at %s, the code has %s at %d" % (m.group(6), m.group(4), name, off)
+            if (m.group(3) is not None) != (off in labels):
+                return "'>>' mark at offset %d is %s, CPython's findlabels gives targets %r" % (off, "present" if m.group(3) else "absent", labels)
+            if arg is not None and om[name] >= opc.HAVE_ARGUMENT and fmt in ("classic", "bytes"):
+                # every operand-taking instruction here is a jump: the listing shows the operand raw and/or resolved as
+                # "(to T)"; a resolved target must be one of CPython's labels
+                t = re.search(r"to (\d+)", m.group(7))
+                raw = re.search(r"(^|[^0-9])%d([^0-9]|$)" % arg, m.group(7))
+                if t is None and raw is None:
+                    return "operand %d of %s at %d not shown in %r" % (arg, name, off, m.group(0))
+                if t is not None and int(t.group(1)) not in labels:
+                    return "%s at %d is listed as jumping to %s, CPython's findlabels gives targets %r" % (name, off, t.group(1), labels)
+        return None
+
+    def body(x):
+        d = judge(run(x))
+        assert d is None, "unfaithful: " + d
+
+    def replay(x):
+        try:
+            return judge(run(x))
+        except Exception as e:
+            return "Bytecode.dis(%s) raises %s: %s" % (fmt, type(e).__name__, str(e)[:150])
+
+    return Ob(id="C12.%s.marks.%s" % (tshort(tname), fmt), prop="C12", params=params, body=body, replay=replay, funcs=FUNCS,
+              opaque_repr=False, region="%s.%s" % (tshort(tname), fmt),
+              skeleton="table=%s: JUMP_FORWARD x; NOPs; FOR_ITER; conditional jump; backward jump; RETURN - offsets/names/operands by construction, jump marks from dis.findlabels; format %s" % (tname, fmt),
+              bound="x in 0..3 (symbolic choice; the listing renders numbers as text)", timeout=90 if tier == "quick" else 200,
+              oracle="instruction list by construction; labels from CPython's own findlabels source (arithmetic before 3.6)")
 
 
 def ext_ob(tname, opc, k, fmt, tier):
@@ -548,6 +659,9 @@ def generate(tier, seed):
         if vt <= (3, 10):
             for fmt in (("classic",) if tier == "quick" else ("classic", "bytes", "extended")):
                 obs.append(linetab_ob(tname, opc, fmt, tier))
+        if "JUMP_FORWARD" in opc.opmap and "FOR_ITER" in opc.opmap:
+            for fmt in (("classic", "extended-bytes") if tier == "quick" else ("classic", "bytes", "extended", "extended-bytes")):
+                obs.append(marks_ob(tname, opc, fmt, tier))
         for fmt in ("classic", "xasm", "extended"):
             obs.append(disco_ob(tname, opc, fmt, tier))
     if tier == "quick":
